@@ -41,7 +41,8 @@ class TypeScriptValueExtractor:
 
     def get_node_text(self, node: Node, content: str) -> str:
         """Get text content of a node."""
-        return content[node.start_byte : node.end_byte]
+        # start_byte/end_byte are offsets into the UTF-8 bytes, not into the str
+        return content.encode("utf-8")[node.start_byte : node.end_byte].decode("utf-8", "replace")
 
     def get_value_string(self, node: Node, content: str) -> str | None:
         """Get string representation of a value node."""
